@@ -24,6 +24,7 @@ RULE = ("Generated: (units) a portfolio spec over all asset classes (contracts, 
         "and storage equal rate x dt_t, so that totals equal rate x elapsed time; running costs of a plant per step = rate x dt_t. Non-trivial: (units) the "
         "portfolio contains >= 1 rate and (>= 1 duration parameter or wacc != 0 or a take); (steps) the grid has >= "
         "2 distinct step lengths. Distinct = distinct spec hash.")
+RULE += (' Steps clause: holding cost of a storage per unit and step = cost rate x elapsed time to the end of the window; a plant with ramp running at its full rate keeps admissible volumes capacity x step length (known finding D58, class excluded from generation).')
 ASSUMPTIONS = ["profiles are given with ramp_freq = grid frequency (otherwise their number of steps depends on the unit by definition)",
                "durations at half-step offsets (ceil conversion unambiguous in every unit)"]
 
